@@ -15,7 +15,8 @@ from common import Check
 import population
 
 THEOREMS = ["Nmfu.C12_zero_len_flag_irrelevant_on_nonempty_chunks", "Nmfu.C12_cursor_and_zero_len_not_in_semantics",
-            "Nmfu.C12_storage_independent_partial"]
+            "Nmfu.C12_storage_independent_partial", "Nmfu.C12_session_refines", "Nmfu.C12_storage_independent",
+            "Nmfu.runTree_abs"]
 
 REPRS = [
     ("default", []),
@@ -60,7 +61,7 @@ def work(job):
     import rtdiff, inputs
     prog, seed, wd_root, tier = job
     rng = random.Random(f"{seed}/{prog['name']}/c12")
-    res = {"name": prog["name"], "status": "ok", "runs": 0, "viol": [], "corr": [], "states": 0, "builds": 0}
+    res = {"name": prog["name"], "status": "ok", "runs": 0, "viol": [], "corr": [], "states": 0, "builds": 0, "thm": "other"}
     wd = os.path.join(wd_root, str(os.getpid()))
     shutil.rmtree(wd, ignore_errors=True)
     cases = []
@@ -79,6 +80,9 @@ def work(job):
         cases.append((rname, c))
         res["builds"] += 1
     res["states"] = cases[0][1].nstates
+    # hypotheses of C12_storage_independent, evaluated on the exported machine (default representation)
+    wf = rtdiff.model().ask("wf", cases[0][1].opts, cases[0][1].mt, timeout=60)
+    res["thm"] = "covered" if ("safeCheck=true" in wf and "idxFree=true" in wf) else ("indexed" if "idxFree=false" in wf else "other")
     yields = bool(list(cases[0][1].outcome.cctx.yield_codes))
     if yields:
         cases = [(n, c) for n, c in cases if c.indirect()]
@@ -122,7 +126,7 @@ def work(job):
 
 def main():
     ck = Check("C12", "proof")
-    ck.lean_obligations("NmfuProps.C12", THEOREMS)
+    ck.lean_obligations("NmfuProps.C12Storage", THEOREMS)
     n_gen = 50 if ck.tier == "quick" else 700
     progs = list(population.population(ck.seed, n_gen))
     wd = common.scratch_dir("c12")
@@ -132,7 +136,8 @@ def main():
     finally:
         shutil.rmtree(wd, ignore_errors=True)
     byname = {p["name"]: p for p in progs}
-    st = {"programs": 0, "binary_runs": 0, "builds": 0, "rejected": 0}
+    st = {"programs": 0, "binary_runs": 0, "builds": 0, "rejected": 0,
+          "storage_theorem_hypotheses_hold": 0, "storage_theorem_not_applicable_index_expression": 0, "storage_theorem_other": 0}
     distinct = set()
     for r in results:
         if r["status"] != "ok":
@@ -141,6 +146,7 @@ def main():
         st["programs"] += 1
         st["binary_runs"] += r["runs"]
         st["builds"] += r["builds"]
+        st[{"covered": "storage_theorem_hypotheses_hold", "indexed": "storage_theorem_not_applicable_index_expression"}.get(r["thm"], "storage_theorem_other")] += 1
         prog = byname[r["name"]]
         if r["states"] >= 3:
             distinct.add(population.src_hash(prog["src"]))
